@@ -103,6 +103,7 @@ type c17Input struct{ Fn, Msg, Dst string }
 
 func c17Inputs() []c17Input {
 	long := strings.Repeat("L", 300)
+	d255, d256 := strings.Repeat("t", 255), strings.Repeat("T", 256)
 
 	var out []c17Input
 
@@ -112,6 +113,9 @@ func c17Inputs() []c17Input {
 			c17Input{fn, "abc", "QUUX-V01-CS02-with-secp256k1_XMD:SHA-256_SSWU_NU_"},
 			c17Input{fn, "a message of some length, longer than one SHA-256 block, to exercise several compressions .........", "d"},
 			c17Input{fn, "oversize", long},
+			c17Input{fn, "longest ordinary tag", d255},
+			c17Input{fn, "shortest oversize tag", d256},
+			c17Input{fn, "sixteen", "0123456789abcdef"},
 		)
 	}
 
@@ -237,6 +241,14 @@ func records() {
 		m, d := rec[:n], rec[n:n+len(in[2])]
 		emit(100+i, call(in[0], m, d))
 		emit(200+i, call(in[0], m, d))
+
+		// and the other way round: the tag first, its capacity running over the message
+		rec2 := make([]byte, 0, len(in[1])+len(in[2])+16)
+		rec2 = append(append(rec2, in[2]...), in[1]...)
+		k := len(in[2])
+		d2, m2 := rec2[:k], rec2[k:k+len(in[1])]
+		emit(300+i, call(in[0], m2, d2))
+		emit(400+i, call(in[0], m2, d2))
 	}
 }
 
@@ -687,7 +699,7 @@ func c17Parent(p *mon.Prop, pc *mon.ParentCtx) *mon.Aggregate {
 		}
 
 		for i := range inputs {
-			for _, off := range []int{100, 200} {
+			for _, off := range []int{100, 200, 300, 400} {
 				agg.Evaluations++
 
 				if got[off+i] != expected[i] && bad == 0 {
@@ -695,7 +707,7 @@ func c17Parent(p *mon.Prop, pc *mon.ParentCtx) *mon.Aggregate {
 					agg.ViolCount++
 					agg.Violations = append(agg.Violations, mon.Violation{
 						Property: p.ID,
-						What: fmt.Sprintf("program %q (execution %d): %s on a message and tag held in one buffer (call %d of 2) printed %s, RFC 9380 value is %s", v.Name, r.run, inputs[i].Fn, off/100,
+						What: fmt.Sprintf("program %q (execution %d): %s on a message and tag held in one buffer (layout %d, call %d of 2) printed %s, RFC 9380 value is %s", v.Name, r.run, inputs[i].Fn, (off+100)/200, 2-(off/100)%2,
 							mon.Trunc(got[off+i], 80), expected[i]),
 						Key:  "program-wrong-value-record:" + v.Name,
 						Case: map[string]any{"variant": v.Name, "input": inputs[i]},
